@@ -75,8 +75,16 @@ def parse_sidecar(path):
             continue
         if s.startswith("unit "):
             spec["unit"] = s[5:].strip()
+        elif s.startswith("regex "):
+            lit, _, repl = s[6:].rpartition(" => ")
+            spec.setdefault("regex_map", {})[lit.strip()] = repl.strip()
         elif s.startswith("rlimit "):
             spec["rlimit"] = float(s.split()[1])
+        elif s.startswith("assert_stmt ") or s.startswith("assert_count "):
+            # syntactic side conditions of an assumed contract, checked on the working tree every run:
+            #   assert_stmt  SRC :: ITEM :: K :: TOKENS     statement K of the fn body is exactly TOKENS
+            #   assert_count SRC :: ITEM :: TOKENS :: N     TOKENS occurs exactly N times in the item
+            spec.setdefault("syntactic", []).append(s)
         elif s.startswith("crate_attr "):
             spec["crate_attrs"].append(s[11:].strip())
         elif s == "rules" or s.startswith("rules "):
@@ -271,7 +279,7 @@ def instrument_fn(ftext, fspec, ed, base, rules, label):
                 raise Undecided("%s: lost anchor: call %s #%d not found in block" % (label, m.group(2), want_n))
             ed.insert(base + st[hit].start, take(key) + "\n")
             continue
-        m = re.match(r"closure (\d+)$", key)
+        m = re.match(r"closure (\d+)( \?)?$", key)
         if m:
             # k-th closure of the fn: `|params| BODY` -> `|params| SPEC { BODY }` (two pure insertions)
             k = int(m.group(1))
@@ -308,6 +316,9 @@ def instrument_fn(ftext, fspec, ed, base, rules, label):
                     continue
                 q += 1
             if k >= len(cl):
+                if m.group(2):
+                    take(key)   # optional site: the closure it would specify is not there
+                    continue
                 raise Undecided("%s: closure %d not found (fn has %d)" % (label, k, len(cl)))
             b0, b1 = cl[k]
             ed.insert(base + st[b0].start, take(key).strip() + " { ")
@@ -400,7 +411,10 @@ def build_unit(spec, repo=REPO):
             g.dropped.append("%s :: %s: outer attributes / doc comments (%d bytes)" % (it.src, it.path, item.start - item.attr_start))
         ed = rsx.Edits(itext)
         label = "%s :: %s" % (it.src, it.path)
-        rsx.apply_rules(itext, spec["rules"], ed)
+        try:
+            rsx.apply_rules(itext, spec["rules"], ed, regex_map=spec.get("regex_map"))
+        except rsx.LexError as e:
+            raise Undecided("%s: %s" % (label, e))
         try:
             if item.kind == "fn":
                 fs = it.fns.get("") or FnSpec()
@@ -443,6 +457,37 @@ def build_unit(spec, repo=REPO):
             "gen_start": gstart, "gen_end": gstart + len(gen), "gen_text": gen, "src_text": itext,
             "kind": item.kind, "name": item.name,
         })
+    for chk in spec.get("syntactic", []):
+        kind, rest = chk.split(" ", 1)
+        f = [x.strip() for x in rest.split(" :: ")]
+        fpath = os.path.join(repo, f[0])
+        if f[0] not in srcs:
+            if not os.path.exists(fpath):
+                raise Undecided("source file %s missing" % f[0])
+            t_ = open(fpath).read()
+            srcs[f[0]] = (t_, rsx.scan_file(t_))
+        text, items = srcs[f[0]]
+        try:
+            item = rsx.find_item(items, f[1])
+        except KeyError as e:
+            raise Undecided("lost anchor: %s" % e)
+        itext = text[item.start:item.end]
+        toks = [t.text for t in rsx.sig_tokens(rsx.lex(itext))]
+        if kind == "assert_stmt":
+            an = rsx.FnAnatomy(itext)
+            st_ = an.statements(an.body_open, an.body_close)
+            k = int(f[2])
+            want = [t.text for t in rsx.sig_tokens(rsx.lex(f[3]))]
+            got = [t.text for t in an.st[st_[k][0]:st_[k][1] + 1]] if -len(st_) <= k < len(st_) else None
+            if got != want:
+                raise Undecided("syntactic side condition of an assumed contract no longer holds: %s (statement is `%s`)"
+                                % (chk, " ".join(got or [])))
+        else:
+            want = [t.text for t in rsx.sig_tokens(rsx.lex(f[2]))]
+            n = sum(1 for i in range(len(toks) - len(want) + 1) if toks[i:i + len(want)] == want)
+            if n != int(f[3]):
+                raise Undecided("syntactic side condition of an assumed contract no longer holds: %s (found %d)" % (chk, n))
+        g.dropped.append("checked: " + chk)
     for p in spec["postamble"]:
         parts.append("// ---- postamble %s\n" % p)
         parts.append(open(os.path.join(cdir, p)).read())
